@@ -280,6 +280,7 @@ def run(ctx):
         full = not ctx.quick
         max_lines = 0
         samples = 0
+        sampled_origins: set = set()
         for i, (origin, raw) in enumerate(G.structured_frames(gen_rng, full)):
             if not ctx.mine(i):
                 continue
@@ -297,13 +298,14 @@ def run(ctx):
                 detail = type(data).__name__
                 if isinstance(data, CEMILData):
                     detail += "/" + (type(data.payload).__name__ if data.payload is not None else type(data.tpci).__name__)
-                if samples < 3:
-                    samples += 1
-                    ctx.sample({"raw": raw, "outcome": repr(res)[:160]})
+                if origin not in sampled_origins and origin in ("S1m", "S3", "S4"):
+                    sampled_origins.add(origin)
+                    ctx.sample({"origin": origin, "raw": raw[:60], "outcome": repr(res)[:200]})
             else:
                 ctx.count(f"outcome_{tag}")
                 detail = str(getattr(res, "description", res)).split(":")[0][:40]
-                if samples < 5 and origin in ("S4", "S5s"):
+                if samples < 3 and origin in ("S4", "S5s", "S5r") and (origin, tag) not in sampled_origins:
+                    sampled_origins.add((origin, tag))
                     samples += 1
                     ctx.sample({"raw": raw[:60], "outcome": tag, "text": str(res)[:120]})
             ctx.distinct((origin[:2], raw[0] if raw else -1, min(len(raw), 48) // 4, tag, detail))
